@@ -523,7 +523,7 @@ def run(tier, seed, replay=None):
         n_spell = 0
         DECS = rc.VERDICTS
 
-        def emit(rule, tpl, ps, qs, same, i, tail=None, mode=None, cwd_=None):
+        def emit(rule, tpl, ps, qs, same, i, tail=None, mode=None, cwd_=None, extra_=None):
             nonlocal n_spell
             mode = (i // 3) % 4 if mode is None else mode     # 0: plain prefix rule, 1: anchored, 2: trailing ' *', 3: plain + extra word
             case = {"rule": rule, "dec": DECS[i % 3], "exact": mode == 1, "star": mode == 2, "msg": i % 2 == 0, "tpl": tpl,
@@ -531,6 +531,8 @@ def run(tier, seed, replay=None):
                     "same": same, "tail": tail}
             if cwd_:
                 case["cwd"] = U(cwd_)
+            if extra_ is not None:
+                case["extra"] = extra_
             if i % 7 == 3 and rule in ("command", "after"):
                 case["sep"] = ("  ", "\t", " \t ")[(i // 7) % 3]
             spell_case(case)
@@ -607,6 +609,18 @@ def run(tier, seed, replay=None):
                     emit("redirect", None, [dsp], [qspell], True, k + j, tail=tail, mode=0)
                     if spell.pathword(qspell):
                         emit(("command", "after")[(k + j) % 2], ("arg1", "arg2", "mid")[k % 3], [dsp], [qspell], True, k + j, tail=tail, mode=0)
+        # identity: no respelling claimed, but a rule written with exactly the command's own words fires on it - every short token
+        # over the characters classification looks at, URL- / variable- / ~user- / option- / assignment-shaped words
+        for k, t in enumerate(spell.identity_tokens()):
+            for j, tpl in enumerate(spell.POSITIONS):
+                if quick and len(t) == 4 and (k + j) % 4:
+                    continue
+                globby = any(c in t for c in "*?[")      # a glob pattern is matched against the whole command text: no extra word
+                emit(("command", "after")[(k + j) % 2], tpl, [t], [t], True, k + j, mode=0 if globby or (k + j) % 4 == 1 else (k + j) % 4,
+                     extra_=0 if globby else None)
+            emit("alias", "name", [t], [t], True, k)
+            if "*" not in t and not (t.endswith("/") and t.strip("/") == ""):
+                emit("redirect", None, [t], [t], True, k)
         # ** patterns of redirect rules: the directory respelled; targets below it and next to it, respelled
         outside_of = {"cwd": "outside", "dir": "topfile", "homedir": "home", "parent": "grandparent", "grandparent": "sysfile", "home": "cwd"}
         for dn, fn in inside.items():
